@@ -29,7 +29,7 @@ def askJson : Ask → Json
   | .asn1OctetString der => Json.mkObj [("ask", "asn1OctetString"), ("der", hex der)]
   | .appleNonce der => Json.mkObj [("ask", "appleNonce"), ("der", hex der)]
   | .keyDescription der => Json.mkObj [("ask", "keyDescription"), ("der", hex der)]
-  | .hardwareDetailsOK der => Json.mkObj [("ask", "hardwareDetailsOK"), ("der", hex der)]
+  | .sanView der => Json.mkObj [("ask", "sanView"), ("der", hex der)]
   | .safetyNet raw => Json.mkObj [("ask", "safetyNet"), ("raw", hex raw)]
   | .jwsHeaders raw => Json.mkObj [("ask", "jwsHeaders"), ("raw", hex raw)]
   | .jwsChain raw i pool => Json.mkObj [("ask", "jwsChain"), ("raw", hex raw), ("i", i), ("pool", pool)]
@@ -56,6 +56,23 @@ def parseCert (j : Json) : Except String CertView := do
            org := ← getHex j "org", orgUnit := ← getHex j "orgUnit", commonName := ← getHex j "commonName",
            exts := exts, unknownEKUs := ekus, key := ← parseKeyMat (← j.getObjVal? "key") }
 
+/-- The SAN extensions of a certificate as the harness reports them: `{"sans": [ … ]}`, each element either `{"bad": true}`
+    (parse failure or trailing data) or `{"names": [ {"cls": n, "tag": n, "rdn": null | [ {"oid": [n…], "isString": bool, "value": hex} … ]} … ]}`. -/
+def parseSans (j : Json) : Except String (List Tpm.SanExt) := do
+  (← getArr j "sans").toList.mapM fun e => do
+    match e.getObjVal? "names" with
+    | .ok (Json.arr ns) =>
+      let names ← ns.toList.mapM fun n => do
+        let rdn ← match n.getObjVal? "rdn" with
+          | .ok (Json.arr as) => do
+            let attrs ← as.toList.mapM fun a => do
+              return (⟨← parseOid (← a.getObjVal? "oid"), ← getBool a "isString", ← getHex a "value"⟩ : Tpm.Attr)
+            pure (some attrs)
+          | _ => pure none
+        return (⟨← getNat n "cls", ← getNat n "tag", rdn⟩ : Tpm.GeneralName)
+      return Tpm.SanExt.names names
+    | _ => return Tpm.SanExt.bad
+
 /-- Decode the harness's answer according to the question asked. `null` is always `Resp.none`. -/
 def parseResp (q : Ask) (j : Json) : Except String Resp := do
   if j.isNull then return .none
@@ -64,8 +81,9 @@ def parseResp (q : Ask) (j : Json) : Except String Resp := do
     return .bytes (← getHex j "bytes")
   | .jwsHeaders _ => return .nat (← getNat j "nat")
   | .clientData _ => return .clientData ⟨← getHex j "type", ← getHex j "challenge", ← getHex j "origin"⟩
-  | .sigVerify .. | .x509CheckSig .. | .hardwareDetailsOK _ => return .bool (← getBool j "bool")
+  | .sigVerify .. | .x509CheckSig .. => return .bool (← getBool j "bool")
   | .tpmAlgHash _ => return .nat (← getNat j "nat")
+  | .sanView _ => return .san (← parseSans j)
   | .x509Parse _ => return .cert (← parseCert j)
   | .tpmCertInfo _ =>
     let name ← match ← getStr j "nameKind" with
